@@ -25,6 +25,51 @@ func init() {
 	families["dfrag"] = genDfrag
 	executors["dfrag"] = execDfrag
 	executors["cifrag"] = execCifrag
+	executors["dfragx"] = execDfragX
+}
+
+// dfragx [chk=] [size=] b:<hex>: exhaustive sweep — every split point as a 2-chunk schedule × three ways of reporting the
+// end, and a reader failing at every offset; digest of all dfrag answers (see lean/Driver/DecFrag.lean sweepAnswer)
+func execDfragX(args []string) string {
+	a, ok := fragParse(args)
+	if !ok || a.hasLens {
+		return "bad-op"
+	}
+	d := uint64(0xcbf29ce484222325)
+	add := func(s string) {
+		for i := 0; i < len(s); i++ {
+			d = (d ^ uint64(s[i])) * 0x100000001b3
+		}
+		d = (d ^ 10) * 0x100000001b3
+	}
+	base := make([]string, 0, len(args))
+	for _, t := range args {
+		base = append(base, t)
+	}
+	n, diffs := 0, 0
+	L := len(a.b)
+	for cut := 0; cut <= L; cut++ {
+		for how := 0; how < 3; how++ {
+			cs := []rdrChunk{{n: cut}, {n: L - cut}}
+			if how == 1 {
+				cs[1].err = io.EOF
+			} else if how == 2 {
+				cs = append(cs, rdrChunk{0, io.EOF})
+			}
+			ans := execDfrag(append(append([]string(nil), base...), "s:"+rbLens(cs)))
+			add(ans)
+			n++
+			if strings.HasSuffix(ans, "v=diff") {
+				diffs++
+			}
+		}
+	}
+	for k := 0; k <= L; k++ {
+		ans := execDfrag(append(append([]string(nil), base...), "s:"+rbLens([]rdrChunk{{n: k}, {0, rdrErr(7)}})))
+		add(ans)
+		n++
+	}
+	return fmt.Sprintf("n=%d d=%016x diff=%d", n, d, diffs)
 }
 
 type fragArgs struct {
@@ -462,7 +507,7 @@ func genDfrag(emit func(string), tier string, rng *Rng) {
 	thorough := tier == "thorough"
 	n, maxLen := 260, 6000
 	if thorough {
-		n, maxLen = 2500, 70000
+		n, maxLen = 1200, 30000
 	}
 	pool, kinds := fragInputs(rng, n, maxLen)
 	for i, b := range pool {
@@ -503,9 +548,15 @@ func genDfrag(emit func(string), tier string, rng *Rng) {
 			count("sched:failing")
 		}
 		// enumeration for small streams: every split point as a 2-chunk schedule, smallest buffer
-		if L <= 400 || (thorough && L <= 2500) {
+		if (thorough && L <= 1500 && kinds[i] != "random-body") || (!thorough && L <= 250 && i%3 == 0) {
+			// exhaustive: all split points × end-of-stream styles + failure at every offset, as one digest operation
+			emit(fragOp("dfragx", chk, []string{"", "765", "0", "1000"}[rng.Intn(4)], b, "-"))
+			count("enum:exhaustive-sweep")
+			stats.Counts["enum:exhaustive-sweep-schedules"] += 4 * (L + 1)
+		}
+		if L <= 400 {
 			step := 1
-			if !thorough && L > 120 {
+			if L > 120 {
 				step = 1 + L/60
 			}
 			for cut := 0; cut <= L; cut += step {
